@@ -1,4 +1,642 @@
 import YncaVerif.Model.Server
 /-! Helper lemmas for C18 / C19 (test server model). -/
 namespace Ynca.Srv
+
+/-! ### association lists -/
+
+theorem find_upd_same {β} (l : List (String × β)) (k : String) (g : β → β) :
+    (l.map (fun e => if e.1 == k then (k, g e.2) else e)).find? (·.1 == k) =
+      (l.find? (·.1 == k)).map (fun e => (k, g e.2)) := by
+  induction l with
+  | nil => simp
+  | cons e t ih =>
+    simp only [List.map_cons, List.find?_cons]
+    cases he : (e.1 == k)
+    · simp only [Bool.false_eq_true, if_false, he]; exact ih
+    · simp
+
+theorem find_upd_other {β} (l : List (String × β)) (k k' : String) (g : β → β) (hne : k' ≠ k) :
+    (l.map (fun e => if e.1 == k then (k, g e.2) else e)).find? (·.1 == k') = l.find? (·.1 == k') := by
+  have h2 : (k == k') = false := by simpa using (Ne.symm hne)
+  induction l with
+  | nil => simp
+  | cons e t ih =>
+    simp only [List.map_cons, List.find?_cons]
+    cases he : (e.1 == k)
+    · simp only [Bool.false_eq_true, if_false]; rw [ih]
+    · have : e.1 = k := by simpa using he
+      simp only [if_true, h2, this]; exact ih
+
+theorem any_eq_find_isSome {β} (l : List (String × β)) (k : String) :
+    l.any (·.1 == k) = (l.find? (·.1 == k)).isSome := by
+  induction l with
+  | nil => simp
+  | cons e t ih =>
+    simp only [List.any_cons, List.find?_cons]
+    cases h : (e.1 == k) <;> simp [ih]
+
+theorem find_setKey_same (sub : Sub) (f v : String) :
+    (setKey sub f v).find? (·.1 == f) = some (f, v) := by
+  unfold setKey
+  split
+  · rename_i h
+    rw [any_eq_find_isSome] at h
+    have := find_upd_same sub f (fun _ => v)
+    simp only at this
+    rw [this]
+    cases hh : sub.find? (·.1 == f) <;> simp_all
+  · rename_i h
+    rw [any_eq_find_isSome] at h
+    rw [List.find?_append]
+    cases hh : sub.find? (·.1 == f) <;> simp_all
+
+theorem find_setKey_other (sub : Sub) (f v f' : String) (hne : f' ≠ f) :
+    (setKey sub f v).find? (·.1 == f') = sub.find? (·.1 == f') := by
+  unfold setKey
+  split
+  · exact find_upd_other sub f f' (fun _ => v) hne
+  · rw [List.find?_append]
+    have h2 : (f == f') = false := by simpa using (Ne.symm hne)
+    simp [h2]
+
+theorem subOf_addData_same (st : Store) (s f v : String) :
+    subOf (addData st s f v) s = some (setKey ((subOf st s).getD []) f v) := by
+  unfold addData subOf
+  split
+  · rename_i h
+    rw [any_eq_find_isSome] at h
+    rw [find_upd_same st s (fun sub => setKey sub f v)]
+    cases hh : st.find? (·.1 == s) <;> simp_all
+  · rename_i h
+    rw [any_eq_find_isSome] at h
+    rw [List.find?_append]
+    cases hh : st.find? (·.1 == s) <;> simp_all [setKey]
+
+theorem subOf_addData_other (st : Store) (s f v s' : String) (hne : s' ≠ s) :
+    subOf (addData st s f v) s' = subOf st s' := by
+  unfold addData subOf
+  split
+  · rw [find_upd_other st s s' (fun sub => setKey sub f v) hne]
+  · rw [List.find?_append]
+    have h2 : (s == s') = false := by simpa using (Ne.symm hne)
+    simp [h2]
+
+theorem getData_addData_same (st : Store) (s f v : String) : getData (addData st s f v) s f = v := by
+  simp only [getData, subOf_addData_same, find_setKey_same]
+
+theorem getData_addData_other (st : Store) (s f v s' f' : String) (hne : (s', f') ≠ (s, f)) :
+    getData (addData st s f v) s' f' = getData st s' f' := by
+  by_cases hs : s' = s
+  · subst hs
+    have hf : f' ≠ f := by intro h; exact hne (by rw [h])
+    simp only [getData, subOf_addData_same, find_setKey_other _ _ _ _ hf]
+    cases subOf st s' <;> simp
+  · simp only [getData, subOf_addData_other _ _ _ _ _ hs]
+
+theorem hasKey_eq (st : Store) (s f : String) :
+    hasKey st s f = ((subOf st s).bind (fun sub => sub.find? (·.1 == f))).isSome := by
+  unfold hasKey
+  cases subOf st s <;> simp [any_eq_find_isSome]
+
+theorem hasKey_iff (st : Store) (s f : String) :
+    hasKey st s f = true ↔ ∃ sub e, subOf st s = some sub ∧ sub.find? (·.1 == f) = some e := by
+  rw [hasKey_eq]
+  cases h : subOf st s with
+  | none => simp
+  | some sub =>
+    cases h2 : sub.find? (·.1 == f) with
+    | none => simp [h2]
+    | some e => simp only [Option.bind_some, h2, Option.isSome_some, true_iff]; exact ⟨sub, e, rfl, h2⟩
+
+theorem hasKey_addData (st : Store) (s f v s' f' : String) :
+    hasKey (addData st s f v) s' f' = (hasKey st s' f' || (s' == s && f' == f)) := by
+  by_cases hs : s' = s
+  · subst hs
+    by_cases hf : f' = f
+    · subst hf
+      simp [hasKey_eq, subOf_addData_same, find_setKey_same]
+    · have : (f' == f) = false := by simpa using hf
+      simp only [hasKey_eq, subOf_addData_same, Option.bind_some, find_setKey_other _ _ _ _ hf, this,
+        Bool.and_false, Bool.or_false]
+      cases subOf st s' <;> simp
+  · have : (s' == s) = false := by simpa using hs
+    simp [hasKey_eq, subOf_addData_other _ _ _ _ _ hs, this]
+
+theorem hasKey_putData (st : Store) (s f v s' f' : String) :
+    hasKey (putData st s f v).1 s' f' = hasKey st s' f' := by
+  unfold putData
+  split
+  · rfl
+  · rename_i sub hsub
+    split
+    · rfl
+    · rename_i e he
+      simp only
+      split
+      · rw [hasKey_addData]
+        by_cases h : s' = s ∧ f' = f
+        · obtain ⟨rfl, rfl⟩ := h
+          have : hasKey st s' f' = true := (hasKey_iff _ _ _).2 ⟨sub, e, hsub, he⟩
+          simp [this]
+        · have : (s' == s && f' == f) = false := by
+            simp only [Bool.and_eq_false_iff, beq_eq_false_iff_ne]
+            by_cases hs : s' = s
+            · right; intro hf; exact h ⟨hs, hf⟩
+            · left; exact hs
+          simp [this]
+      · rfl
+
+/-! ### ingestion -/
+
+
+/-- a value line: `@S:F=V` with `V ≠ "?"`, handled as data by `fill_from_file` -/
+def IsValueLine (cmd : Option Cmd) (raw : String) (c : Cmd) : Prop :=
+  lineToCommand (cleanLine raw) = some c ∧ c.value ≠ "?" ∧
+  (cmd = none ∨ (hasMarker (cleanLine raw) RESTRICTED = false ∧ hasMarker (cleanLine raw) UNDEFINED = false))
+
+theorem ingestLine_value (st : Store) (cmd : Option Cmd) (raw : String) (c : Cmd) (h : IsValueLine cmd raw c) :
+    (ingestLine (st, cmd) raw).1 = addData st c.subunit c.function c.value := by
+  obtain ⟨h1, h2, h3⟩ := h
+  have h2' : (c.value != "?") = true := by simpa using h2
+  unfold ingestLine
+  cases cmd with
+  | none => simp only [h1, h2', if_true]
+  | some c0 =>
+    rcases h3 with h3 | ⟨h3, h4⟩
+    · cases h3
+    · simp only [h1, h2', h3, h4, Bool.or_false, Bool.false_eq_true, if_false, if_true]
+
+theorem ingest_value (st : Store) (cmd : Option Cmd) (raw : String) (c : Cmd) (h : IsValueLine cmd raw c) :
+    getData (ingestLine (st, cmd) raw).1 c.subunit c.function = c.value ∧
+    ∀ s f, (s, f) ≠ (c.subunit, c.function) → getData (ingestLine (st, cmd) raw).1 s f = getData st s f := by
+  rw [ingestLine_value st cmd raw c h]
+  exact ⟨getData_addData_same _ _ _ _, fun s f hne => getData_addData_other _ _ _ _ _ _ hne⟩
+
+theorem isError_false {v : String} (h : isError v = false) : v ≠ UNDEFINED ∧ v ≠ RESTRICTED := by
+  simpa [isError] using h
+
+theorem ingest_keeps (st : Store) (cmd : Option Cmd) (raw : String) (s f : String)
+    (hv : isError (getData st s f) = false)
+    (hn : ∀ c, lineToCommand (cleanLine raw) = some c → (c.subunit, c.function) ≠ (s, f)) :
+    getData (ingestLine (st, cmd) raw).1 s f = getData st s f := by
+  unfold ingestLine
+  simp only
+  generalize lineToCommand (cleanLine raw) = o at hn
+  have key : getData (match o with
+        | some c' => ((if c'.value != "?" then addData st c'.subunit c'.function c'.value else st, some c') : Store × Option Cmd)
+        | none => (st, none)).1 s f = getData st s f := by
+    cases o with
+    | none => rfl
+    | some c' =>
+      simp only
+      split
+      · exact getData_addData_other _ _ _ _ _ _ (Ne.symm (hn c' rfl))
+      · rfl
+  cases cmd with
+  | none => exact key
+  | some c0 =>
+    simp only
+    split
+    · split
+      · rename_i hu
+        have hu' : getData st c0.subunit c0.function = UNDEFINED := by simpa using hu
+        apply getData_addData_other
+        intro heq
+        cases heq
+        rw [hu'] at hv
+        exact absurd hv (by decide)
+      · rfl
+    · exact key
+
+/-! ### GET -/
+
+
+/-- functions with special coupling in the handlers (by name), from the statement plus the handlers' tables -/
+def specialName (T : Tables) (f : String) : Bool :=
+  ["PWR", "PWRB", "STRAIGHT", "SOUNDPRG", "PUREDIRMODE", "DIRMODE", "PLAYBACK", "MEM", "REMOTECODE", "INPNAME", "SCENENAME"].contains f ||
+  T.multi.any (·.1 == f) || T.related.any (·.1 == f)
+
+/-- an ordinary PUT: no special function, not a relative step on a volume function, not an error-marker text -/
+def OrdinaryPut (T : Tables) (f v : String) : Prop :=
+  specialName T f = false ∧ ((f = "VOL" ∨ f = "ZONEBVOL") → relStep v = none) ∧ isError v = false
+
+/-- `@S:F=V`, or one of the two error markers -/
+def WellFormed (l : String) : Prop := isError l = true ∨ ∃ s f v, l = valueLine s f v
+
+theorem specialName_false {T : Tables} {f : String} (h : specialName T f = false) :
+    (f == "PWR") = false ∧ (f == "STRAIGHT") = false ∧ (f == "DIRMODE") = false ∧ (f == "PLAYBACK") = false ∧
+    (f == "MEM") = false ∧ (f == "REMOTECODE") = false ∧ (f == "INPNAME") = false ∧ (f == "SCENENAME") = false ∧
+    T.multi.find? (·.1 == f) = none ∧ T.related.find? (·.1 == f) = none := by
+  simp only [specialName, Bool.or_eq_false_iff, any_eq_find_isSome] at h
+  obtain ⟨⟨h1, h2⟩, h3⟩ := h
+  simp at h1
+  rw [Option.isSome_eq_false_iff, Option.isNone_iff_eq_none] at h2 h3
+  simp [h1, h2, h3]
+
+theorem sendStored_fst (st : Store) (s f : String) (sk : Bool) :
+    (sendStored st s f sk).1 = if isError (getData st s f) then (if sk then [] else [getData st s f])
+      else [valueLine s f (getData st s f)] := by
+  unfold sendStored; simp only; split <;> rfl
+
+theorem get_ordinary (T : Tables) (st : Store) (s f : String) (hf : specialName T f = false) :
+    handleGet T.multi st s f =
+      (if isError (getData st s f) then [getData st s f] else [valueLine s f (getData st s f)]) := by
+  obtain ⟨_, h2, h3, _, _, _, h7, h8, h9, _⟩ := specialName_false hf
+  simp [handleGet, multiTable, h9, handleGet1, h2, h3, h7, h8, sendStored_fst]
+
+/-- what a GET may answer for subunit `s` -/
+def GetLine (st : Store) (s : String) (l : String) : Prop :=
+  isError l = true ∨ (∃ g, l = valueLine s g (getData st s g) ∧ isError (getData st s g) = false) ∨
+    l = valueLine s "STRAIGHT" "On"
+
+theorem sendStored_getLine (st : Store) (s f : String) (sk : Bool) :
+    ∀ l ∈ (sendStored st s f sk).1, GetLine st s l := by
+  intro l hl
+  rw [sendStored_fst] at hl
+  split at hl
+  · rename_i he
+    split at hl
+    · simp at hl
+    · simp at hl; subst hl; exact Or.inl he
+  · rename_i he
+    simp at hl
+    subst hl
+    exact Or.inr (Or.inl ⟨f, rfl, by simpa using he⟩)
+
+theorem handleGet1_getLine (st : Store) (s : String) (sup : Bool) (fuel : Nat) :
+    ∀ f, ∀ l ∈ handleGet1 st s f sup fuel, GetLine st s l := by
+  induction fuel with
+  | zero => intro f l hl; simp [handleGet1] at hl
+  | succ n ih =>
+    intro f l hl
+    rw [handleGet1] at hl
+    split at hl
+    · simp only [List.mem_flatMap] at hl
+      obtain ⟨e, _, hl⟩ := hl
+      split at hl
+      · exact sendStored_getLine _ _ _ _ l hl
+      · simp at hl
+    · split at hl
+      · simp only at hl
+        split at hl
+        · simp at hl; subst hl; exact Or.inl (by decide)
+        · simp only [List.mem_flatMap] at hl
+          obtain ⟨e, _, hl⟩ := hl
+          exact sendStored_getLine _ _ _ _ l hl
+      · split at hl
+        · simp only at hl
+          split at hl
+          · rw [List.mem_append] at hl
+            rcases hl with hl | hl
+            · exact sendStored_getLine _ _ _ _ l hl
+            · exact ih _ l hl
+          · exact sendStored_getLine _ _ _ _ l hl
+        · split at hl
+          · rename_i h
+            simp only [Bool.and_eq_true, beq_iff_eq] at h
+            simp at hl
+            rw [h.1] at hl
+            exact Or.inr (Or.inr hl)
+          · exact sendStored_getLine _ _ _ _ l hl
+
+theorem handleGet_getLine (tables : List (String × List String)) (st : Store) (s f : String) :
+    ∀ l ∈ handleGet tables st s f, GetLine st s l := by
+  intro l hl
+  unfold handleGet at hl
+  split at hl
+  · exact handleGet1_getLine _ _ _ _ _ l hl
+  · simp only at hl
+    split at hl
+    · simp at hl; subst hl; exact Or.inl (by decide)
+    · simp only [List.mem_flatMap] at hl
+      obtain ⟨g, _, hl⟩ := hl
+      exact handleGet1_getLine _ _ _ _ _ l hl
+
+theorem GetLine.wellFormed {st : Store} {s l : String} (h : GetLine st s l) : WellFormed l := by
+  rcases h with h | ⟨g, h, _⟩ | h
+  · exact Or.inl h
+  · exact Or.inr ⟨_, _, _, h⟩
+  · exact Or.inr ⟨_, _, _, h⟩
+
+theorem get_only_stored (T : Tables) (st : Store) (s f : String) :
+    ∀ l ∈ handleGet T.multi st s f, isError l = true ∨
+      (∃ g, l = valueLine s g (getData st s g) ∧ isError (getData st s g) = false) ∨
+      l = valueLine s "STRAIGHT" "On" :=
+  handleGet_getLine T.multi st s f
+
+theorem get_wellformed (T : Tables) (st : Store) (s f : String) :
+    ∀ l ∈ handleGet T.multi st s f, WellFormed l :=
+  fun l hl => (handleGet_getLine T.multi st s f l hl).wellFormed
+
+theorem valueLine_ne_crash (s f v : String) : valueLine s f v ≠ crashMarker := by
+  intro h
+  have := congrArg String.toList h
+  simp [valueLine, crashMarker, String.toList_append] at this
+
+theorem WellFormed.ne_crash {l : String} (h : WellFormed l) : l ≠ crashMarker := by
+  rcases h with h | ⟨s, f, v, rfl⟩
+  · intro hc; subst hc; exact absurd h (by decide)
+  · exact valueLine_ne_crash s f v
+
+/-! ### ordinary PUT -/
+
+
+theorem getData_of_find {st : Store} {s f : String} {sub : Sub} {e : String × String}
+    (h1 : subOf st s = some sub) (h2 : sub.find? (·.1 == f) = some e) : getData st s f = e.2 := by
+  simp [getData, h1, h2]
+
+theorem putData_key (st : Store) (s f v : String) (hk : hasKey st s f = true) :
+    putData st s f v =
+      (if v != UNDEFINED && v != RESTRICTED then addData st s f v else st, "OK", getData st s f != v) := by
+  obtain ⟨sub, e, h1, h2⟩ := (hasKey_iff _ _ _).1 hk
+  simp only [putData, h1, h2, getData_of_find h1 h2]
+
+theorem putData_nokey (st : Store) (s f v : String) (hk : hasKey st s f = false) :
+    ∃ r, isError r = true ∧ putData st s f v = (st, r, false) := by
+  unfold putData
+  cases h1 : subOf st s with
+  | none => exact ⟨RESTRICTED, by decide, rfl⟩
+  | some sub =>
+    cases h2 : sub.find? (·.1 == f) with
+    | none => exact ⟨UNDEFINED, by decide, by simp only [h2]⟩
+    | some e =>
+      have := (hasKey_iff st s f).2 ⟨sub, e, h1, h2⟩
+      rw [hk] at this; cases this
+
+theorem handlePut_ordinary (T : Tables) (va : VolArith) (st : Store) (s f v : String) (ho : OrdinaryPut T f v) :
+    handlePut T va st s f v =
+      ((putData st s f v).1,
+        if isError (putData st s f v).2.1 then [(putData st s f v).2.1]
+        else if !(putData st s f v).2.2 then [] else [valueLine s f v]) := by
+  obtain ⟨hf, hvol, hv⟩ := ho
+  obtain ⟨h1, h2, h3, h4, h5, h6, h7, h8, h9, h10⟩ := specialName_false hf
+  by_cases hvf : (f == "VOL" || f == "ZONEBVOL") = true
+  · have hrel := hvol (by simpa using hvf)
+    simp only [handlePut, h6, h5, Bool.and_false, Bool.false_eq_true, if_false, hvf, hrel,
+      if_true, h4, Bool.false_and, h10, Option.map_none, h1]
+    rcases putData st s f v with ⟨st1, res, ch⟩
+    simp only
+    split
+    · rfl
+    · split <;> rfl
+  · simp only [handlePut, h6, h5, Bool.and_false, Bool.false_eq_true, if_false, hvf,
+      h4, Bool.false_and, h10, Option.map_none, h1]
+    rcases putData st s f v with ⟨st1, res, ch⟩
+    simp only
+    split
+    · rfl
+    · split <;> rfl
+
+theorem put_new (T : Tables) (va : VolArith) (st : Store) (s f v : String) (ho : OrdinaryPut T f v)
+    (hk : hasKey st s f = true) (hne : getData st s f ≠ v) :
+    (handlePut T va st s f v).2 = [valueLine s f v] ∧
+    getData (handlePut T va st s f v).1 s f = v ∧
+    ∀ s' f', (s', f') ≠ (s, f) → getData (handlePut T va st s f v).1 s' f' = getData st s' f' := by
+  obtain ⟨hv1, hv2⟩ := isError_false ho.2.2
+  have hv1' : (v != UNDEFINED) = true := by simpa using hv1
+  have hv2' : (v != RESTRICTED) = true := by simpa using hv2
+  have hne' : (getData st s f != v) = true := by simpa using hne
+  have hok : isError "OK" = false := by decide
+  have : handlePut T va st s f v = (addData st s f v, [valueLine s f v]) := by
+    rw [handlePut_ordinary T va st s f v ho, putData_key st s f v hk]
+    simp only [hv1', hv2', Bool.and_self, if_true, hok, hne', Bool.not_true, Bool.false_eq_true, if_false]
+  rw [this]
+  exact ⟨rfl, getData_addData_same _ _ _ _, fun s' f' h => getData_addData_other _ _ _ _ _ _ h⟩
+
+theorem put_same (T : Tables) (va : VolArith) (st : Store) (s f v : String) (ho : OrdinaryPut T f v)
+    (hk : hasKey st s f = true) (heq : getData st s f = v) :
+    (handlePut T va st s f v).2 = [] ∧ ∀ s' f', getData (handlePut T va st s f v).1 s' f' = getData st s' f' := by
+  obtain ⟨hv1, hv2⟩ := isError_false ho.2.2
+  have hv1' : (v != UNDEFINED) = true := by simpa using hv1
+  have hv2' : (v != RESTRICTED) = true := by simpa using hv2
+  have hne' : (getData st s f != v) = false := by simpa using heq
+  have hok : isError "OK" = false := by decide
+  have : handlePut T va st s f v = (addData st s f v, []) := by
+    rw [handlePut_ordinary T va st s f v ho, putData_key st s f v hk]
+    simp only [hv1', hv2', Bool.and_self, if_true, hok, hne', Bool.not_false, Bool.false_eq_true, if_false]
+  rw [this]
+  refine ⟨rfl, fun s' f' => ?_⟩
+  by_cases h : (s', f') = (s, f)
+  · cases h; simp only [getData_addData_same, heq]
+  · exact getData_addData_other _ _ _ _ _ _ h
+
+theorem put_unknown (T : Tables) (va : VolArith) (st : Store) (s f v : String) (ho : OrdinaryPut T f v)
+    (hk : hasKey st s f = false) :
+    (∃ e, (handlePut T va st s f v).2 = [e] ∧ isError e = true) ∧ (handlePut T va st s f v).1 = st := by
+  obtain ⟨r, hr, hp⟩ := putData_nokey st s f v hk
+  rw [handlePut_ordinary T va st s f v ho, hp]
+  rw [if_pos hr]
+  exact ⟨⟨r, rfl, hr⟩, rfl⟩
+
+/-! ### PUT in general -/
+
+
+theorem put_ignores_arith (T : Tables) (va va' : VolArith) (st : Store) (s f v : String)
+    (hf : f ≠ "VOL" ∧ f ≠ "ZONEBVOL") : handlePut T va st s f v = handlePut T va' st s f v := by
+  have h1 : (f == "VOL") = false := by simpa using hf.1
+  have h2 : (f == "ZONEBVOL") = false := by simpa using hf.2
+  simp only [handlePut, h1, h2, Bool.or_false, Bool.false_eq_true, if_false]
+
+theorem put_ignores_arith_value (T : Tables) (va va' : VolArith) (st : Store) (s f v : String)
+    (hv : v.startsWith "Up" = false ∧ v.startsWith "Down" = false) :
+    handlePut T va st s f v = handlePut T va' st s f v := by
+  have hrel : relStep v = none := by
+    simp only [relStep, hv.1, hv.2, Bool.or_false, Bool.false_eq_true, if_false]
+  simp only [handlePut, hrel]
+
+/-- the PWR-coupling fold keeps the key set and emits only value lines -/
+theorem pwrFold (f v : String) (zs : List String) :
+    ∀ acc : Store × List String,
+      (∀ s' f', hasKey (zs.foldl (fun (acc : Store × List String) z =>
+        let (st', _, ch) := putData acc.1 z f v
+        (st', if ch then acc.2 ++ [valueLine z f v] else acc.2)) acc).1 s' f' = hasKey acc.1 s' f') ∧
+      (∀ l ∈ (zs.foldl (fun (acc : Store × List String) z =>
+        let (st', _, ch) := putData acc.1 z f v
+        (st', if ch then acc.2 ++ [valueLine z f v] else acc.2)) acc).2, l ∈ acc.2 ∨ WellFormed l) := by
+  induction zs with
+  | nil => intro acc; exact ⟨fun _ _ => rfl, fun l hl => Or.inl hl⟩
+  | cons z t ih =>
+    intro acc
+    simp only [List.foldl_cons]
+    obtain ⟨ih1, ih2⟩ := ih ((putData acc.1 z f v).1,
+      if (putData acc.1 z f v).2.2 then acc.2 ++ [valueLine z f v] else acc.2)
+    refine ⟨fun s' f' => ?_, fun l hl => ?_⟩
+    · rw [ih1, hasKey_putData]
+    · rcases ih2 l hl with h | h
+      · simp only at h
+        split at h
+        · rw [List.mem_append] at h
+          rcases h with h | h
+          · exact Or.inl h
+          · simp at h; subst h; exact Or.inr (Or.inr ⟨_, _, _, rfl⟩)
+        · exact Or.inl h
+      · exact Or.inr h
+
+theorem pwrCoupling_spec (T : Tables) (st : Store) (s f v : String) :
+    (∀ s' f', hasKey (pwrCoupling T st s f v).1 s' f' = hasKey st s' f') ∧
+    (∀ l ∈ (pwrCoupling T st s f v).2, WellFormed l) := by
+  unfold pwrCoupling
+  split
+  · obtain ⟨h1, h2⟩ := pwrFold f v T.zones (st, [])
+    simp only
+    split
+    · refine ⟨fun s' f' => ?_, fun l hl => ?_⟩
+      · simp only [hasKey_putData]; exact h1 s' f'
+      · simp only at hl
+        split at hl
+        · rw [List.mem_append] at hl
+          rcases hl with hl | hl
+          · rcases h2 l hl with h | h
+            · simp at h
+            · exact h
+          · simp at hl; subst hl; exact Or.inr ⟨_, _, _, rfl⟩
+        · rcases h2 l hl with h | h
+          · simp at h
+          · exact h
+    · refine ⟨h1, fun l hl => ?_⟩
+      rcases h2 l hl with h | h
+      · simp at h
+      · exact h
+  · split
+    · refine ⟨fun s' f' => ?_, fun l hl => ?_⟩
+      · simp only [hasKey_putData]
+      · simp only at hl
+        have aux : ∀ (c : Bool) (w : String), l ∈ (if c then [valueLine "SYS" f w] else []) → WellFormed l := by
+          intro c w h
+          cases c
+          · simp at h
+          · simp at h; exact Or.inr ⟨_, _, _, h⟩
+        exact aux _ _ hl
+    · exact ⟨fun _ _ => rfl, fun l hl => by simp at hl⟩
+
+
+
+theorem handlePut_spec (T : Tables) (va : VolArith) (st : Store) (s f v0 : String) :
+    (∀ s' f', hasKey (handlePut T va st s f v0).1 s' f' = hasKey st s' f') ∧
+    ∀ l ∈ (handlePut T va st s f v0).2, WellFormed l ∨
+      (l = crashMarker ∧ T.zones.contains s = true ∧ hasKey st s "PLAYBACK" = true) := by
+  have hU : WellFormed UNDEFINED := Or.inl (by decide)
+  unfold handlePut
+  split
+  · refine ⟨fun _ _ => rfl, fun l hl => ?_⟩
+    simp only at hl
+    split at hl
+    · simp at hl; subst hl; exact Or.inl hU
+    · simp at hl
+  · split
+    · exact ⟨fun _ _ => rfl, fun l hl => by simp at hl⟩
+    · simp only []
+      generalize (if (f == "VOL" || f == "ZONEBVOL") = true then _ else v0) = v
+      have hkeys : ∀ s' f', hasKey (putData st s f v).1 s' f' = hasKey st s' f' :=
+        fun s' f' => hasKey_putData st s f v s' f'
+      have hres : isError (putData st s f v).2.1 = false → hasKey st s f = true := by
+        intro h
+        cases hk : hasKey st s f with
+        | true => rfl
+        | false =>
+          obtain ⟨r, hr, hp⟩ := putData_nokey st s f v hk
+          rw [hp] at h; simp only at h; rw [hr] at h; cases h
+      generalize putData st s f v = p at hkeys hres
+      obtain ⟨st1, res, ch⟩ := p
+      simp only at hkeys hres ⊢
+      split
+      · rename_i he
+        refine ⟨hkeys, fun l hl => ?_⟩
+        simp at hl; subst hl; exact Or.inl (Or.inl he)
+      · rename_i he
+        have hk := hres (by simpa using he)
+        split
+        · exact ⟨hkeys, fun l hl => by simp at hl⟩
+        · split
+          · exact ⟨hkeys, fun l hl => by simp at hl⟩
+          · rename_i hpb
+            split
+            · rename_i htgt
+              refine ⟨hkeys, fun l hl => ?_⟩
+              simp at hl; subst hl
+              right
+              split at htgt
+              · rename_i hc
+                simp only [Bool.and_eq_true, beq_iff_eq] at hc
+                refine ⟨rfl, hc.2, ?_⟩
+                rw [← hc.1]; exact hk
+              · cases htgt
+            · rename_i s' htgt
+              generalize (if (f == "PLAYBACK") = true then "PLAYBACKINFO" else f) = f'
+              have hrep : ∀ l ∈ (match
+                    Option.map (fun x => x.snd)
+                      (List.find? (fun x => x.fst == f') T.related) with
+                  | some fs =>
+                    List.map (fun g => valueLine s' g (getData st1 s' g))
+                      (List.filter (fun g => getData st1 s' g != UNDEFINED) fs)
+                  | none => [valueLine s' f' v]),
+                  WellFormed l := by
+                intro l hl
+                split at hl
+                · simp only [List.mem_map] at hl
+                  obtain ⟨g, _, rfl⟩ := hl
+                  exact Or.inr ⟨_, _, _, rfl⟩
+                · simp at hl; subst hl; exact Or.inr ⟨_, _, _, rfl⟩
+              obtain ⟨hp1, hp2⟩ := pwrCoupling_spec T st1 s' f' v
+              split
+              · refine ⟨fun a b => by rw [hp1, hkeys], fun l hl => ?_⟩
+                simp only [List.mem_append] at hl
+                rcases hl with hl | hl
+                · exact Or.inl (hrep l hl)
+                · exact Or.inl (hp2 l hl)
+              · exact ⟨hkeys, fun l hl => Or.inl (hrep l hl)⟩
+
+/-! ### C18 / C19 results -/
+
+
+theorem put_wellformed (T : Tables) (va : VolArith) (st : Store) (s f v : String) :
+    ∀ l ∈ (handlePut T va st s f v).2, WellFormed l ∨ l = crashMarker := by
+  intro l hl
+  rcases (handlePut_spec T va st s f v).2 l hl with h | h
+  · exact Or.inl h
+  · exact Or.inr h.1
+
+/-- no zone of the store has a `PLAYBACK` key -/
+def NoZonePlayback (T : Tables) (st : Store) : Prop := ∀ z ∈ T.zones, hasKey st z "PLAYBACK" = false
+
+theorem no_crash (T : Tables) (va : VolArith) (st : Store) (h : NoZonePlayback T st) (line : String) :
+    crashMarker ∉ (handleCommand T va st line).2 := by
+  intro hm
+  unfold handleCommand at hm
+  split at hm
+  · rename_i c _
+    split at hm
+    · exact (get_wellformed T st c.subunit c.function _ hm).ne_crash rfl
+    · rcases (handlePut_spec T va st c.subunit c.function c.value).2 _ hm with hw | ⟨_, hz, hk⟩
+      · exact hw.ne_crash rfl
+      · have hz' : c.subunit ∈ T.zones := by simpa using hz
+        rw [h _ hz'] at hk; cases hk
+  · simp at hm
+
+theorem keys_invariant (T : Tables) (va : VolArith) (st : Store) (line : String) (s f : String) :
+    hasKey (handleCommand T va st line).1 s f = hasKey st s f := by
+  unfold handleCommand
+  split
+  · split
+    · rfl
+    · exact (handlePut_spec T va st _ _ _).1 s f
+  · rfl
+
+theorem NoZonePlayback.step {T : Tables} {st : Store} (h : NoZonePlayback T st) (va : VolArith) (line : String) :
+    NoZonePlayback T (handleCommand T va st line).1 := by
+  intro z hz
+  rw [keys_invariant]; exact h z hz
+
+theorem session_no_crash (T : Tables) (va : VolArith) (st : Store) (h : NoZonePlayback T st) (lines : List String) :
+    NoZonePlayback T (lines.foldl (fun st l => (handleCommand T va st l).1) st) ∧
+    ∀ pre l post, lines = pre ++ l :: post →
+      crashMarker ∉ (handleCommand T va (pre.foldl (fun st l => (handleCommand T va st l).1) st) l).2 := by
+  have inv : ∀ (ls : List String) (st : Store), NoZonePlayback T st →
+      NoZonePlayback T (ls.foldl (fun st l => (handleCommand T va st l).1) st) := by
+    intro ls
+    induction ls with
+    | nil => intro st h; exact h
+    | cons a t ih => intro st h; exact ih _ (h.step va a)
+  exact ⟨inv lines st h, fun pre l _ _ => no_crash T va _ (inv pre st h) l⟩
+
 end Ynca.Srv
